@@ -123,10 +123,19 @@ def build_cli():
 
 # ---------------------------------------------------------------- running
 
+def _big_stack():
+    # the extracted OCaml code is not tail-recursive everywhere: deeply nested documents need a large system stack
+    import resource
+    try:
+        resource.setrlimit(resource.RLIMIT_STACK, (resource.RLIM_INFINITY, resource.RLIM_INFINITY))
+    except (ValueError, OSError):
+        pass
+
+
 def run_model(cases):
     exe = build_modelrun()
     p = subprocess.run([exe], input=("\n".join(cases) + "\n").encode(), stdout=subprocess.PIPE,
-                       stderr=subprocess.PIPE, timeout=3600)
+                       stderr=subprocess.PIPE, timeout=3600, preexec_fn=_big_stack)
     lines = p.stdout.decode().split("\n")
     if lines and lines[-1] == "":
         lines.pop()
@@ -278,7 +287,7 @@ POOLS = {
     "mixed": ASCII_WORDS * 3 + BULLETY + UNICODE + BLANKY + CASEY + ODD,
     "casey": CASEY,
     "hostile_fmt": ASCII_WORDS + HOSTILE_FMT * 2 + UNICODE + ODD,
-    "fs": ASCII_WORDS * 4 + [b"f.go", b"g.go", b"Makefile", b"x.md", b"o", b"lib.o"] + ODD,
+    "fs": ASCII_WORDS * 4 + [b"f.go", b"g.go", b"Makefile", b"x.md", b"o", b"lib.o", b"a.tar.gz", b"b.tar.gz", b"GNUmakefile", b"profile"] + ODD,
     "fs_hostile": ASCII_WORDS * 3 + HOSTILE_FS,
     # sibling names that are prefixes of each other, continued by bytes sorting below and above '/'
     "fs_prefix": [b"cmd", b"cmd-old", b"cmd.md", b"cmd_x", b"cmd0", b"cmd x", b"cmd+", b"a", b"a-b", b"a.b", b"a b", b"ab", b"a_b", b"a!",
@@ -384,6 +393,30 @@ def very_wide_forests(ks=(15, 16, 17, 18, 31, 32, 33, 63, 64, 65, 66, 127, 128, 
         inner = [(3, b"c%d" % i) for i in range(1, k + 1)]
         out.append([(1, b"r"), (2, b"p")] + inner + [(3, b"c%d" % k), (4, b"g"), (3, b"c1"), (4, b"h"), (2, b"q")])
     return out
+
+
+def deep_forests(depths=(63, 64, 65, 66, 67, 70, 129, 130, 257, 520)):
+    """chains nested to the given depth (around 64, 128, 256, 512: bit masks, fixed stacks, recursion guards), once as
+    only children and once with a second sibling at every level after the deep one"""
+    out = []
+    for n in depths:
+        chain = [(d, b"n%d" % d) for d in range(1, n + 1)]
+        out.append(chain + [(1, b"after")])
+        if n > 130:
+            continue
+        sib = []
+        for d in range(1, n + 1):
+            sib.append((d, b"n%d" % d))
+        for d in range(n, 1, -1):
+            sib.append((d, b"s%d" % d))
+        out.append(sib)
+    return out
+
+
+def deep_spelling(items):
+    sp = plain_spelling(items)
+    sp["unit"] = b"\t"
+    return sp
 
 
 BLANK_LINES = [b"", b" ", b"   ", b"\t", b" \t ", " ".encode(), "　".encode(), "  ".encode(), b"\x0b", b"\x0c",
